@@ -6,6 +6,7 @@ import (
 	"errors"
 	"fmt"
 	"io"
+	"runtime"
 	"strings"
 	"sync"
 	"sync/atomic"
@@ -33,6 +34,8 @@ var (
 // fchan is the instrumented in-memory channel handed to the server (or client)
 // under test. Recv returns what the scenario feeds; Send and Close are logged.
 type fchan struct {
+	widen bool // racing mode: yield inside Send/Close
+
 	log     *logger
 	feeds   chan feedItem
 	closed  chan struct{}
@@ -92,6 +95,12 @@ func (c *fchan) Send(b []byte) error {
 	defer c.sending.Add(-1)
 	if c.tryLock != nil && c.tryLock() {
 		c.fault("Send called without holding the owner's mutex")
+	}
+	if c.widen {
+		// racing mode: stay inside Send for a while so that an unserialised second sender overlaps
+		for i := 0; i < 4; i++ {
+			runtime.Gosched()
+		}
 	}
 	c.mu.Lock()
 	ok := !c.isClosed && !c.failSend
